@@ -173,7 +173,10 @@ def run_one(exe, mmodel, script_text, workdir, idx, timeout=120):
     with open(p, "w") as f:
         f.write(script_text)
     ri = subprocess.run(["timeout", str(timeout), exe, p], capture_output=True, text=True, errors="replace")
-    rm = subprocess.run(["timeout", str(timeout), mmodel, p], capture_output=True, text=True, errors="replace")
+    po = p + ".impl"
+    with open(po, "w") as f:
+        f.write(ri.stdout)
+    rm = subprocess.run(["timeout", str(timeout), mmodel, p, po], capture_output=True, text=True, errors="replace")
     return ri, rm
 
 
@@ -329,10 +332,7 @@ def main():
                 mobs = parse_obs(rm.stdout)
                 iobs = parse_obs(ri.stdout)
                 model_lines += len(mobs)
-                for ln, tx in iobs.items():
-                    m = re.search(r"dump=(.*)$", tx)
-                    if m and " n1=" in m.group(1):
-                        distinct.add(hashlib.md5(m.group(1).encode()).hexdigest())
+                distinct |= props.nontrivial(pid, txt, iobs)
                 for ln in txt.splitlines():
                     t = ln.split()
                     if t:
